@@ -1,12 +1,20 @@
 #!/bin/sh
 # tools/benign_all.sh — re-runs the false-alarm evaluation for every stored behaviour-preserving change
 # (seeded/benign/Cxx.diff, base commit bb12425): scratch worktree, apply, all twenty quick checks, remove.
-BASE=bb12425
+# the changes were written against bb12425; they are applied on top of the current HEAD (three-way where
+# needed) so that the evaluation sees today's tree plus the refactoring and nothing else
+BASE=HEAD
 for D in /verif/seeded/benign/C*.diff; do
   L=ben-$(basename "$D" .diff)
   WT=$(mktemp -d /tmp/bn-XXXXXX); rmdir "$WT"
   git -C /repo worktree add -q --detach "$WT" "$BASE" || continue
-  if git -C "$WT" apply "$D"; then /verif/tools/benign.sh "$WT" "$L"; else echo "$L: patch does not apply"; fi
+  if git -C "$WT" apply "$D" 2>/dev/null || git -C "$WT" apply -3 "$D" 2>/dev/null; then
+    /verif/tools/benign.sh "$WT" "$L"
+  else
+    # overlaps a later fix: evaluated on the commit it was written against (defects fixed since then reappear there, rightly)
+    git -C /repo worktree remove --force "$WT"; git -C /repo worktree add -q --detach "$WT" bb12425
+    git -C "$WT" apply "$D" && /verif/tools/benign.sh "$WT" "$L-on-bb12425"
+  fi
   git -C /repo worktree remove --force "$WT"
 done
 git -C /repo worktree prune
